@@ -159,4 +159,27 @@ theorem filterMap_map_eq_filter {α β : Type} (F : α → Option β) (snd : β 
         simp only [hq, if_true, List.map_cons, hx, ih]
       · simp [hq] at hx
 
+/-! ### small helpers used by the property file -/
+
+theorem canonRow_noop (cc : List Bool) (vs : List Val) (h : cc.all (!·) = true) :
+    canonRow cc vs = vs := by
+  induction cc generalizing vs with
+  | nil => cases vs <;> simp [canonRow]
+  | cons c cs ih =>
+    simp only [List.all_cons, Bool.and_eq_true, Bool.not_eq_true'] at h
+    cases vs with
+    | nil => simp [canonRow]
+    | cons v vs' =>
+      have hc : c = false := h.1
+      subst hc
+      cases v <;> simp [canonRow, ih vs' h.2]
+
+theorem length_filterMap_eq_countP {α β : Type} (f : α → Option β) (l : List α) :
+    (l.filterMap f).length = l.countP (fun x => (f x).isSome) := by
+  induction l with
+  | nil => rfl
+  | cons x xs ih =>
+    simp only [List.filterMap_cons, List.countP_cons]
+    cases h : f x <;> simp [ih]
+
 end SgModel.Cy
